@@ -91,6 +91,8 @@ struct Role {
     waiting: Option<(u64, u64)>,
     acquired: usize,
     park_at: Option<usize>,
+    /// pause right before the k-th acquisition (nothing new is held yet)
+    park_before: Option<usize>,
     parked: bool,
     released: bool,
     finished: bool,
@@ -167,6 +169,14 @@ impl Rec {
                     std::io::stdout().flush().unwrap();
                     std::process::exit(0);
                 }
+                if on && !st.role[r].released && st.role[r].park_before == Some(st.role[r].acquired + 1) {
+                    st.role[r].parked = true;
+                    self.cv.notify_all();
+                    while !st.role[r].released {
+                        st = self.cv.wait(st).unwrap_or_else(|p| p.into_inner());
+                    }
+                    st.role[r].parked = false;
+                }
                 st.role[r].waiting = Some(l);
                 st.log.push((r, Ev { kind: 'W', class: l.0, inst: l.1 }));
                 self.cv.notify_all();
@@ -231,8 +241,12 @@ impl Rec {
     }
 
     fn add_role(&self, park_at: Option<usize>) -> usize {
+        self.add_role2(park_at, None)
+    }
+
+    fn add_role2(&self, park_at: Option<usize>, park_before: Option<usize>) -> usize {
         let mut st = self.st.lock().unwrap();
-        st.role.push(Role { park_at, ..Role::default() });
+        st.role.push(Role { park_at, park_before, ..Role::default() });
         st.recording.push(false);
         st.role.len() - 1
     }
@@ -959,7 +973,7 @@ fn settle(rec: &Arc<Rec>, r: usize, timeout: Duration) -> &'static str {
             }
         }
         // blocked: make sure it is not a momentary contention
-        std::thread::sleep(Duration::from_millis(60));
+        std::thread::sleep(Duration::from_millis(35));
         let st = rec.st.lock().unwrap();
         if st.role[r].finished {
             return "finished";
@@ -978,18 +992,26 @@ fn race_once(rec: &Arc<Rec>, spec: &[String], patience: Duration) -> (Value, boo
     rec.reset();
     rec.st.lock().unwrap().current = spec.join(" || ");
     let mut sys = build();
+    // name:k = pause right after the k-th acquisition, name@k = right before it
     let mut plan: Vec<(String, Option<usize>)> = vec![];
+    let mut before: Vec<Option<usize>> = vec![];
     for s in spec {
-        let mut it = s.split(':');
-        let name = it.next().unwrap().to_string();
-        let park = it.next().map(|k| k.parse::<usize>().expect("park index"));
-        plan.push((name, park));
+        if let Some((name, k)) = s.split_once('@') {
+            plan.push((name.to_string(), None));
+            before.push(Some(k.parse::<usize>().expect("park index")));
+        } else {
+            let mut it = s.split(':');
+            let name = it.next().unwrap().to_string();
+            let park = it.next().map(|k| k.parse::<usize>().expect("park index"));
+            plan.push((name, park));
+            before.push(None);
+        }
     }
     let mut reqs: Vec<Req> = vec![];
     // roles 0..k-1 are the racing threads; the preparations run on the main thread under a role
     // of their own, watched for re-entrant locking like the requests
-    for (_, park) in plan.iter() {
-        rec.add_role(*park);
+    for (i, (_, park)) in plan.iter().enumerate() {
+        rec.add_role2(*park, before[i]);
     }
     let r_setup = rec.add_role(None);
     rec.bind(r_setup, false);
@@ -1086,6 +1108,7 @@ fn race_once(rec: &Arc<Rec>, spec: &[String], patience: Duration) -> (Value, boo
                 "thread": r,
                 "request": plan[r].0,
                 "park_after_acquisition": plan[r].1,
+                "park_before_acquisition": before[r],
                 "finished": st.role[r].finished,
                 "result": st.role[r].result,
                 "holds": st.role[r].held.iter().map(|l| lock_name(&st, *l)).collect::<Vec<_>>(),
@@ -1163,6 +1186,7 @@ fn race(rec: &Arc<Rec>, spec: &[String]) {
 fn sweep(rec: &Arc<Rec>, args: &Args) {
     // how many acquisitions does each request make (single-threaded)
     let mut acqs: Vec<(String, usize, Vec<String>)> = vec![];
+    let mut progs: Vec<(String, usize, Vec<String>, Vec<u8>)> = vec![];
     for kind in KINDS {
         rec.reset();
         let r0 = rec.add_role(None);
@@ -1177,6 +1201,7 @@ fn sweep(rec: &Arc<Rec>, args: &Args) {
             Ok(x) => x,
             Err(_) => {
                 acqs.push((kind.to_string(), 0, vec![]));
+                progs.push((kind.to_string(), 0, vec![], vec![]));
                 continue;
             }
         };
@@ -1187,25 +1212,142 @@ fn sweep(rec: &Arc<Rec>, args: &Args) {
         let st = rec.st.lock().unwrap();
         let seq: Vec<String> =
             st.role[r].events.iter().filter(|e| e.kind == 'A').map(|e| lock_name(&st, (e.class, e.inst))).collect();
+        // rel_before[k-1]: something was released between acquisition k-1 and acquisition k
+        // 1 = some lock, 2 = a structural lock (node state, channel map, slot, tracker)
+        let mut rel_before: Vec<u8> = vec![];
+        let mut rel = 0u8;
+        for e in st.role[r].events.iter() {
+            if e.kind == 'R' {
+                rel = rel.max(if (1..=4).contains(&e.class) { 2 } else { 1 });
+            } else if e.kind == 'A' {
+                rel_before.push(rel);
+                rel = 0;
+            }
+        }
+        progs.push((kind.to_string(), seq.len(), seq.clone(), rel_before));
         acqs.push((kind.to_string(), seq.len(), seq));
     }
-    let mut triples: Vec<(usize, usize, usize)> = vec![];
-    for (pi, (_, n, _)) in acqs.iter().enumerate() {
+    // preemption points of a request: ":k" after its k-th acquisition, "@k" before its k-th
+    // acquisition when something was released since the previous one (between two critical sections)
+    let structural = |l: &str| l.starts_with("S#") || l.starts_with("M#") || l.starts_with("C#") || l.starts_with("T#");
+    let mut points_all: Vec<Vec<String>> = vec![];
+    let mut points_main: Vec<Vec<String>> = vec![];
+    for (_, n, seq, rel_before) in progs.iter() {
+        let (mut all, mut main) = (vec![], vec![]);
         for k in 1..=*n {
-            for qi in 0..acqs.len() {
-                triples.push((pi, k, qi));
+            if k >= 2 && rel_before[k - 1] >= 1 {
+                all.push(format!("@{}", k));
+            }
+            if k >= 2 && rel_before[k - 1] >= 2 {
+                main.push(format!("@{}", k));
+            }
+            all.push(format!(":{}", k));
+            if structural(&seq[k - 1]) {
+                main.push(format!(":{}", k));
+            }
+        }
+        points_all.push(all);
+        points_main.push(main);
+    }
+    let index_of = |name: &str| acqs.iter().position(|a| a.0 == name);
+    // tier 1: the channel life cycle (same channel ids: the stub, channel A) + requests named by the caller
+    let mut family: Vec<usize> = ["new_channel", "new_channel_existing", "setup_channel", "setup_channel_again",
+        "forget_channel_stub", "forget_channel_ready", "heartbeat_prune_stub", "heartbeat_prune_closed",
+        "sign_onchain_funding", "persist_all"].iter().filter_map(|n| index_of(n)).collect();
+    for a in args.rest.iter() {
+        if let Some(list) = a.strip_prefix("focus=") {
+            for n in list.split(',') {
+                if let Some(i) = index_of(n) {
+                    if !family.contains(&i) {
+                        family.push(i);
+                    }
+                }
             }
         }
     }
-    let total = triples.len();
-    // seeded selection for the quick tier
-    let mut rng = Rng::new(args.seed);
-    if args.n > 0 && args.n < total {
-        for i in 0..args.n {
-            let j = i + rng.below((total - i) as u64) as usize;
-            triples.swap(i, j);
+    let mut seen: std::collections::HashSet<(usize, String, usize)> = std::collections::HashSet::new();
+    let mut triples: Vec<(usize, String, usize)> = vec![];
+    for &pi in family.iter() {
+        for &qi in family.iter() {
+            if pi != qi {
+                for pt in points_main[pi].iter() {
+                    if seen.insert((pi, pt.clone(), qi)) {
+                        triples.push((pi, pt.clone(), qi));
+                    }
+                }
+            }
         }
+    }
+    let tier1 = triples.len();
+    // tier 2: two requests that lock the same channel slot, one of them a commitment update
+    let is_update = |n: &str| ["validate_holder_commitment", "revoke_holder_commitment", "sign_counterparty_commitment",
+        "validate_counterparty_revocation", "sign_holder_commitment", "sign_mutual_close", "htlcs_fulfilled"].iter().any(|p| n.starts_with(p));
+    let slots = |i: usize| -> Vec<&String> { acqs[i].2.iter().filter(|l| l.starts_with("C#")).collect() };
+    let mut t2: Vec<(usize, String, usize)> = vec![];
+    for pi in 0..acqs.len() {
+        for qi in 0..acqs.len() {
+            if pi == qi || !(is_update(&acqs[pi].0) || is_update(&acqs[qi].0)) {
+                continue;
+            }
+            if !slots(pi).iter().any(|l| slots(qi).contains(l)) {
+                continue;
+            }
+            for pt in points_main[pi].iter() {
+                if !seen.contains(&(pi, pt.clone(), qi)) {
+                    t2.push((pi, pt.clone(), qi));
+                }
+            }
+        }
+    }
+    let mut rng = Rng::new(args.seed);
+    // a seeded rotation, so that a budget that does not cover the tier covers another part with another seed
+    if !t2.is_empty() {
+        let rot = rng.below(t2.len() as u64) as usize;
+        t2.rotate_left(rot);
+    }
+    for t in t2.iter() {
+        seen.insert(t.clone());
+    }
+    let tier2 = t2.len();
+    triples.extend(t2);
+    // tier 3: everything else, in seeded random order
+    let mut t3: Vec<(usize, String, usize)> = vec![];
+    for pi in 0..acqs.len() {
+        for pt in points_all[pi].iter() {
+            for qi in 0..acqs.len() {
+                if !seen.contains(&(pi, pt.clone(), qi)) {
+                    t3.push((pi, pt.clone(), qi));
+                }
+            }
+        }
+    }
+    for i in 0..t3.len() {
+        let j = i + rng.below((t3.len() - i) as u64) as usize;
+        t3.swap(i, j);
+    }
+    let tier3 = t3.len();
+    triples.extend(t3);
+    let total = triples.len();
+    if args.n > 0 && args.n < total {
         triples.truncate(args.n);
+    }
+    // shard=i/n: this process runs every n-th schedule of the selection
+    let (shard, nshards): (usize, usize) = args
+        .rest
+        .iter()
+        .find_map(|a| a.strip_prefix("shard=").map(|v| {
+            let (a, b) = v.split_once('/').expect("shard=i/n");
+            (a.parse().unwrap(), b.parse().unwrap())
+        }))
+        .unwrap_or((0, 1));
+    let selected = triples.len();
+    let triples: Vec<(usize, String, usize)> =
+        triples.into_iter().enumerate().filter(|(i, _)| i % nshards == shard).map(|(_, t)| t).collect();
+    if args.rest.iter().any(|a| a == "plan") {
+        emit("PLAN", json!({"tier1": tier1, "tier2": tier2, "tier3": tier3, "total": total, "selected": selected,
+                            "family": family.iter().map(|i| acqs[*i].0.clone()).collect::<Vec<_>>(),
+                            "points": acqs.iter().enumerate().map(|(i, a)| json!([a.0, points_main[i].len(), points_all[i].len()])).collect::<Vec<_>>()}));
+        return;
     }
     let from: usize = args.rest.iter().find_map(|a| a.strip_prefix("from=").map(|v| v.parse().unwrap())).unwrap_or(0);
     let (mut completed, mut blocked, mut changed, mut panicked, mut skipped) = (0usize, 0usize, 0usize, 0usize, 0usize);
@@ -1215,15 +1357,15 @@ fn sweep(rec: &Arc<Rec>, args: &Args) {
     let (mut serializable, mut not_serializable, mut seq_unavailable) = (0usize, 0usize, 0usize);
     let mut odd: Vec<Value> = vec![];
     while idx < triples.len() {
-        let (pi, k, qi) = triples[idx];
-        let spec = vec![format!("{}:{}", acqs[pi].0, k), acqs[qi].0.clone()];
+        let (pi, pt, qi) = triples[idx].clone();
+        let spec = vec![format!("{}{}", acqs[pi].0, pt), acqs[qi].0.clone()];
         let (report, stuck) = race_once(rec, &spec, Duration::from_millis(3000));
         idx += 1;
         if stuck {
             emit("RACE", report);
             emit(
                 "SWEEP",
-                json!({"total": total, "selected": triples.len(), "from": from, "next": idx, "completed": completed,
+                json!({"total": total, "selected": selected, "tiers": [tier1, tier2, tier3], "shard": [shard, nshards], "mine": triples.len(), "from": from, "next": idx, "completed": completed,
                        "blocked_then_completed": blocked, "program_changed": changed, "panicked": panicked, "unpreparable": skipped, "serializable": serializable,
                        "not_serializable": not_serializable, "sequential_unavailable": seq_unavailable, "odd": odd,
                        "aborted": true, "sample": sample}),
@@ -1292,7 +1434,7 @@ fn sweep(rec: &Arc<Rec>, args: &Args) {
     }
     emit(
         "SWEEP",
-        json!({"total": total, "selected": triples.len(), "from": from, "next": idx, "completed": completed,
+        json!({"total": total, "selected": selected, "tiers": [tier1, tier2, tier3], "shard": [shard, nshards], "mine": triples.len(), "from": from, "next": idx, "completed": completed,
                "blocked_then_completed": blocked, "program_changed": changed, "panicked": panicked, "unpreparable": skipped, "serializable": serializable,
                        "not_serializable": not_serializable, "sequential_unavailable": seq_unavailable, "odd": odd,
                "aborted": false, "sample": sample}),
